@@ -509,7 +509,8 @@ theorem rdDmigX_lines (o : RdOpt) (d : Dmig) (hc : d.Clean) :
     obtain ⟨c', _, rfl⟩ := List.mem_map.mp hcm
     simp [cardName_cardVals1]
   have hhead : cardName d.headerVals = some (lower d.name) := rfl
-  simp only [List.length_cons, dmigAuxX, hhead, takeWhile_all' _ _ hall, dropWhile_all' _ _ hall, dmigAuxX_nil]
+  simp only [List.isEmpty_cons, Bool.false_eq_true, if_false, List.length_cons, dmigAuxX, hhead, takeWhile_all' _ _ hall,
+    dropWhile_all' _ _ hall, dmigAuxX_nil]
   cases dmigOneX o d.headerVals (lower d.name) (d.written d.encT) <;> rfl
 
 end PyYetiVerif.Bulk
